@@ -330,9 +330,24 @@ pub fn random_vector(rng: &mut impl Rng, n: usize, inject: Inject) -> (Vec<Slot>
         Inject::Block => {
             if reals.len() >= 2 {
                 let i = reals[rng.gen_range(0..reals.len())];
-                match rng.gen_range(0..3) {
+                match rng.gen_range(0..4) {
                     0 => slots[i].block_hash[rng.gen_range(0..4)] += F::ONE,
                     1 => slots[i].block_hash = equal_alias_digest(rng, &block),
+                    3 => {
+                        // the reference with a proper non-empty subset of limbs zeroed (still a real slot)
+                        let mut b = block;
+                        let mask: u8 = rng.gen_range(1..15);
+                        for k in 0..4 {
+                            if mask & (1 << k) != 0 {
+                                b[k] = F::ZERO;
+                            }
+                        }
+                        if b == [F::ZERO; 4] {
+                            b = block;
+                            b[0] += F::ONE;
+                        }
+                        slots[i].block_hash = b;
+                    }
                     _ => slots[i].block_hash = zero_alias_digest(rng),
                 }
                 if slots[i].block_hash == block {
@@ -993,8 +1008,24 @@ pub fn random_inners(rng: &mut impl Rng, m: usize, n: usize, inj: PubInject) -> 
         let i = reals[rng.gen_range(1..reals.len())];
         match inj {
             PubInject::None => {}
-            PubInject::Block => match rng.gen_range(0..3) {
+            PubInject::Block => match rng.gen_range(0..4) {
                 0 => inners[i][3 + rng.gen_range(0..4)] += F::ONE,
+                3 => {
+                    // the reference with a proper, non-empty subset of its limbs zeroed: still a REAL inner (not the all-zero
+                    // sentinel) whose block hash differs from the reference only where it is zero
+                    let mut b = key.0;
+                    let mask: u8 = rng.gen_range(1..15);
+                    for k in 0..4 {
+                        if mask & (1 << k) != 0 {
+                            b[k] = F::ZERO;
+                        }
+                    }
+                    if b == [F::ZERO; 4] || b == key.0 {
+                        b = key.0;
+                        b[0] += F::ONE;
+                    }
+                    inners[i][3..7].copy_from_slice(&b);
+                }
                 1 => {
                     let b = equal_alias_digest(rng, &key.0);
                     inners[i][3..7].copy_from_slice(&b);
